@@ -34,6 +34,11 @@ THEOREMS = [
     'Pyiga.Props.C10.combine_bcs_value',
     'Pyiga.Props.C10.blocked_numbering_injective',
     'Pyiga.Props.C10.initial_condition_01',
+    'Pyiga.Props.C10.boundary_dofs_spec',
+    'Pyiga.Props.C10.boundary_dofs_count',
+    'Pyiga.Props.C10.boundary_dofs_flip',
+    'Pyiga.Props.C10.boundary_dofs_face',
+    'Pyiga.Slice.sliceMulti_flip',
 ]
 MODULES = ['Pyiga.Model.Index', 'Pyiga.Model.Slice', 'Pyiga.Model.Restrict', 'Pyiga.Proofs.Index',
            'Pyiga.Proofs.Slice', 'Pyiga.Proofs.Restrict', 'Pyiga.Props.C10']
